@@ -390,7 +390,7 @@ def check(ctx, rid):
         pops = v.calls(r"stack::Stack::pop$")
         ob("StoreRange:index-popped-before-the-words", len(plw) == 1 and any(v.dominates(pb_, plw[0][0]) for pb_, _ in pops), som,
            "a pop dominates pop_len_words")
-    ctx.floor(rid, "addressed-position obligations", n[0], 40)
+    ctx.floor(rid, "addressed-position obligations", n[0], 57)
 
 
 def _alts(t):
